@@ -1,13 +1,16 @@
 #!/bin/bash
-# usage: tools/seedcheck.sh <seed-id> <property> [only-filter] [tier]   -- applies the seeded patch to /repo, runs the check, restores /repo
+# usage: tools/seedcheck.sh <seed-id> <property> [only-filter] [tier]
+# Runs the property check against a scratch COPY of /repo with the seeded patch applied (VERIF_REPO), so that /repo is
+# never modified and other running checks cannot race with it.  Equivalent to: git -C /repo apply <patch>; ./check; git checkout.
 set -u
 seed=$1; prop=$2; only=${3:-}; tier=${4:-quick}
 cd /verif
-git -C /repo diff --quiet || { echo "/repo not clean"; exit 9; }
-git -C /repo apply /verif/seeded/$seed/patch.diff || exit 9
-cp -r evidence /var/tmp/evidence_keep_$$ 2>/dev/null
-if [ -n "$only" ]; then VERIF_ONLY=$only ./check $prop --tier $tier > /var/tmp/seedcheck_$seed.txt 2>&1; else ./check $prop --tier $tier > /var/tmp/seedcheck_$seed.txt 2>&1; fi
+copy=/var/tmp/seedrepo_$$
+rm -rf $copy; mkdir -p $copy/crates
+cp -r /repo/crates/kira $copy/crates/kira; rm -rf $copy/crates/kira/target; cp /repo/Cargo.lock $copy/
+(cd $copy && git apply /verif/seeded/$seed/patch.diff) || { echo "patch does not apply"; rm -rf $copy; exit 9; }
+keep=/var/tmp/evidence_keep_$$; mkdir -p $keep; cp evidence/$prop.json $keep/ 2>/dev/null
+if [ -n "$only" ]; then VERIF_REPO=$copy VERIF_ONLY=$only ./check $prop --tier $tier > /var/tmp/seedcheck_$seed.txt 2>&1; else VERIF_REPO=$copy ./check $prop --tier $tier > /var/tmp/seedcheck_$seed.txt 2>&1; fi
 rc=$?
-git -C /repo checkout -- .
-rm -rf evidence; mv /var/tmp/evidence_keep_$$ evidence
+cp $keep/$prop.json evidence/ 2>/dev/null; rm -rf $keep $copy
 echo "seed=$seed prop=$prop rc=$rc"; grep -E "VIOLATION|UNDECIDED|KNOWN" /var/tmp/seedcheck_$seed.txt | cut -c1-220
